@@ -105,3 +105,6 @@ func (s *State) VerifSettled() bool {
 	page := s.h.Current()
 	return !page.loadingUp && !page.loadingDown
 }
+
+/* for callbacks that already run under the mutex */
+func (s *State) VerifHeightLocked() int { return s.height }
